@@ -616,6 +616,69 @@ pub fn run_workload(sub: u64, only_leg: Option<&str>, acc: &mut Acc, ctx: &Ctx, 
         }
     }
 
+    // ---- a directory that was opened cannot be listed to the end ------------------------
+    if want("readdir-fault") && line_mode && w.mode != "files-without-match" {
+        let mut cands: Vec<String> = dirs.clone();
+        cands.push(String::new()); // the root itself
+        let victim = cands[rng.below(cands.len())].clone();
+        let k = rng.below(4);
+        let suffix = if victim.is_empty() { "/w".to_string() } else { format!("/w/{victim}") };
+        let spec = mk(vec![format!("readdir_err={suffix}:{k}:5")], &[]);
+        let got = ctx.run(&cwd, &spec, 30);
+        acc.evals += 1;
+        digest = digest_out(digest, &got);
+        acc.faults.add("readdir-EIO-after-k-entries", got.fired("readdir_err"));
+        if got.fired("readdir_err") > 0 {
+            let detail = json!({"directory": suffix, "failing_readdir_call": k});
+            if w.no_messages != got.stderr.is_empty() {
+                acc.violation("C15", "readdir-fault-diagnostic", format!("listing {suffix} failed after {k} entries: stderr {:?} (--no-messages: {})", show(&got.stderr), w.no_messages), sub, replay_body(sub, &w, "readdir-fault", &spec, Some(&reference), &got, detail.clone()));
+            }
+            if got.code != 2 {
+                acc.violation("C15", "status-with-readdir-fault", format!("listing {suffix} failed after {k} entries: exit {} expected 2", got.code), sub, replay_body(sub, &w, "readdir-fault", &spec, Some(&reference), &got, detail.clone()));
+            }
+            // what lies outside the directory is reported as before; of the directory itself a part
+            let inside = |l: &[u8]| if victim.is_empty() { true } else { l.starts_with(format!("w/{victim}/").as_bytes()) };
+            let r = mask_times(&reference.stdout);
+            let g = mask_times(&got.stdout);
+            let exp_out: Vec<&[u8]> = lines(&r).into_iter().filter(|l| !inside(l)).collect();
+            let got_out: Vec<&[u8]> = lines(&g).into_iter().filter(|l| !inside(l)).collect();
+            let mut ref_in = sorted(&lines(&r).into_iter().filter(|l| inside(l)).collect::<Vec<_>>());
+            let got_in = sorted(&lines(&g).into_iter().filter(|l| inside(l)).collect::<Vec<_>>());
+            let mut subset = true;
+            for l in &got_in {
+                match ref_in.iter().position(|x| x == l) {
+                    Some(i) => {
+                        ref_in.remove(i);
+                    }
+                    None => subset = false,
+                }
+            }
+            if sorted(&exp_out) != sorted(&got_out) || !subset {
+                acc.violation("C15", "other-results-suppressed", format!("listing {suffix} failed after {k} entries: results outside it changed, or results inside it are not a part of the fault-free ones"), sub, replay_body(sub, &w, "readdir-fault", &spec, Some(&reference), &got, detail.clone()));
+            }
+        }
+    }
+
+    // ---- short and interrupted writes to stdout: nothing observable changes -------------
+    if want("stdout-faults") && !reference.stdout.is_empty() {
+        let spec = mk(vec![format!("stdout_frag={}", 1 + rng.below(1000)), format!("stdout_eintr={}", rng.below(4)), format!("stdout_eintr={}", 4 + rng.below(60))], &[]);
+        let got = ctx.run(&cwd, &spec, 30);
+        acc.evals += 1;
+        digest = digest_out(digest, &got);
+        acc.faults.add("stdout-short-write(no error)", got.fired("stdout_frag"));
+        acc.faults.add("stdout-write-EINTR", got.fired("stdout_eintr"));
+        let (g, r) = (mask_times(&got.stdout), mask_times(&reference.stdout));
+        let sortl = |b: &[u8]| {
+            let mut v: Vec<Vec<u8>> = lines(b).into_iter().map(|l| l.to_vec()).collect();
+            v.sort();
+            v
+        };
+        let same = if w.threads == 1 { g == r } else { sortl(&g) == sortl(&r) };
+        if !same || got.code != reference.code || got.stderr != reference.stderr {
+            acc.violation("C15", "stdout-write-faults-changed-outcome", format!("writes to stdout accepted 1-97 bytes at a time and two were answered EINTR: exit {} (reference {}), {} vs {} bytes of stdout, stderr {:?}", got.code, reference.code, got.stdout.len(), reference.stdout.len(), show(&got.stderr)), sub, replay_body(sub, &w, "stdout-faults", &spec, Some(&reference), &got, json!(null)));
+        }
+    }
+
     // ---- closed pipe under arbitrary output-shaping flags -----------------------------
     // Whatever the flags make of the output: when stdout closes after k bytes, exactly the first
     // k bytes of the uninterrupted output were written, nothing goes to stderr, and a run that
